@@ -20,7 +20,7 @@
 //! `<srvops>`: `-` or `+`-joined `ServerTlsConfig` calls after `identity`: `ca:<ca>` `opt:<0|1>` `ico:<0|1>`.
 //!
 //! observed line:
-//!   `cfg=<ok|err:…> res=<ok|fail:CLASS> h=<handler runs> peer=<…> ext=<…> plain=<0|1> dial=<0|1>`
+//!   `res=<ok|fail:CLASS> cfg=<ok|err:…> h=<handler runs> peer=<…> ext=<…> plain=<0|1> dial=<0|1>`
 use crate::common::*;
 use std::future::Future;
 use std::io;
@@ -593,21 +593,28 @@ async fn run_case<IO: Transport>(c: Case) -> String {
                 }
             })
         };
-        res = match ep.connect_with_connector(connector).await {
+        let lazy = c.transport.ends_with("-lazy");
+        let ch = if lazy {
+            Ok(ep.connect_with_connector_lazy(connector))
+        } else {
+            ep.connect_with_connector(connector).await
+        };
+        res = match ch {
             Err(e) => format!("fail:{}", classify_err(&e)),
             Ok(ch) => {
                 let mut grpc = tonic::client::Grpc::new(ch);
-                match grpc.ready().await {
-                    Err(e) => format!("fail:{}", classify_err(&e)),
-                    Ok(()) => {
-                        let path = http::uri::PathAndQuery::from_static("/verif.Tls/Call");
-                        let codec = tonic::codec::ProstCodec::<String, String>::default();
-                        match grpc.unary(tonic::Request::new(MARKER.to_string()), path, codec).await {
-                            Ok(r) if r.get_ref() == &format!("echo:{}", MARKER) => "ok".into(),
-                            Ok(_) => "fail:wrong-reply".into(),
-                            Err(st) => format!("fail:{}", classify_status(&st)),
-                        }
+                let first = one_call(&mut grpc).await;
+                if lazy && first != "ok" {
+                    // a lazily connected channel dials again for the next call: it must fail
+                    // the same way (no fallback on retry)
+                    let second = one_call(&mut grpc).await;
+                    if canonical_res(&second) != canonical_res(&first) {
+                        format!("fail:retry-differs<{}|{}>", canonical_res(&first), canonical_res(&second))
+                    } else {
+                        first
                     }
+                } else {
+                    first
                 }
             }
         };
@@ -623,9 +630,9 @@ async fn run_case<IO: Transport>(c: Case) -> String {
     let peer = obs.peer.lock().unwrap();
     let peer_s = if peer.is_empty() { "peer=- ext=-".to_string() } else { peer.join(",") };
     format!(
-        "cfg={} res={} h={} {} plain={} dial={}",
-        cfg_state,
+        "res={} cfg={} h={} {} plain={} dial={}",
         canonical_res(&res),
+        cfg_state,
         runs,
         peer_s,
         plain as u8,
@@ -645,6 +652,7 @@ fn canonical_res(res: &str) -> String {
         return res.to_string();
     };
     let c = match class {
+        x if x.starts_with("retry-differs") => x,
         "config" | "https-without-tls" | "alpn-alert" | "h2-not-negotiated" | "wrong-reply"
         | "server-cert:unknown-issuer" | "server-cert:name-mismatch" => class,
         x if x.starts_with("server-cert:") => "server-cert:other",
@@ -652,6 +660,21 @@ fn canonical_res(res: &str) -> String {
         _ => "rejected",
     };
     format!("fail:{}", c)
+}
+
+async fn one_call(grpc: &mut tonic::client::Grpc<tonic::transport::Channel>) -> String {
+    match grpc.ready().await {
+        Err(e) => format!("fail:{}", classify_err(&e)),
+        Ok(()) => {
+            let path = http::uri::PathAndQuery::from_static("/verif.Tls/Call");
+            let codec = tonic::codec::ProstCodec::<String, String>::default();
+            match grpc.unary(tonic::Request::new(MARKER.to_string()), path, codec).await {
+                Ok(r) if r.get_ref() == &format!("echo:{}", MARKER) => "ok".into(),
+                Ok(_) => "fail:wrong-reply".into(),
+                Err(st) => format!("fail:{}", classify_status(&st)),
+            }
+        }
+    }
 }
 
 fn classify_cfg_err(e: &(dyn std::error::Error + 'static)) -> String {
@@ -687,7 +710,54 @@ fn classify_status(st: &tonic::Status) -> String {
     format!("status:{:?}", st.code())
 }
 
+/// `srvcfg <op>+<op>…` — only `Server::builder().tls_config(..)`: `ok` / `err:<class>` (a
+/// missing identity panics inside tonic: the observable `panic`, via `catch_unwind`).
+fn srvcfg(ops: &str) -> String {
+    let mut tls = ServerTlsConfig::new();
+    for op in ops.split('+') {
+        if op == "-" {
+            continue;
+        } else if let Some(n) = op.strip_prefix("id:") {
+            let (Some(c), Some(k)) = (cert_pem(n), key_pem(n)) else { return "bad-case".into() };
+            tls = tls.identity(Identity::from_pem(c, k));
+        } else if let Some(n) = op.strip_prefix("ca:") {
+            let Some(c) = cert_pem(n) else { return "bad-case".into() };
+            tls = tls.client_ca_root(Certificate::from_pem(c));
+        } else if let Some(b) = op.strip_prefix("opt:") {
+            tls = tls.client_auth_optional(b == "1");
+        } else if let Some(b) = op.strip_prefix("ico:") {
+            tls = tls.ignore_client_order(b == "1");
+        } else {
+            return "bad-case".into();
+        }
+    }
+    match Server::builder().tls_config(tls) {
+        Ok(_) => "ok".into(),
+        Err(e) => {
+            let mut texts = vec![e.to_string()];
+            let mut cur = std::error::Error::source(&e);
+            while let Some(s) = cur {
+                texts.push(format!("{} / {:?}", s, s));
+                cur = s.source();
+            }
+            let all = texts.join(" | ");
+            if all.contains("Error parsing TLS certificate") {
+                "err:cert-parse".into()
+            } else if all.contains("Error parsing TLS private key") {
+                "err:key-parse".into()
+            } else if all.contains("NoRootAnchors") {
+                "err:no-root-anchors".into()
+            } else {
+                format!("err:other<{}>", all.replace(' ', "_"))
+            }
+        }
+    }
+}
+
 pub fn execute(case: &str) -> String {
+    if let Some(ops) = case.strip_prefix("srvcfg ") {
+        return srvcfg(ops.trim());
+    }
     let c = match parse(case) {
         Some(c) => c,
         None => return "bad-case".into(),
@@ -695,8 +765,8 @@ pub fn execute(case: &str) -> String {
     let rt = tokio::runtime::Builder::new_current_thread().enable_all().build().unwrap();
     let out = rt.block_on(async move {
         let fut: Pin<Box<dyn Future<Output = String> + Send>> = match c.transport.as_str() {
-            "tcp" => Box::pin(run_case::<tokio::net::TcpStream>(c)),
-            "duplex" => Box::pin(run_case::<tokio::io::DuplexStream>(c)),
+            "tcp" | "tcp-lazy" => Box::pin(run_case::<tokio::net::TcpStream>(c)),
+            "duplex" | "duplex-lazy" => Box::pin(run_case::<tokio::io::DuplexStream>(c)),
             _ => return "bad-case".to_string(),
         };
         match tokio::time::timeout(Duration::from_secs(20), fut).await {
@@ -708,21 +778,281 @@ pub fn execute(case: &str) -> String {
     out
 }
 
-pub fn generate(_tier: &str, _rng: &mut Rng) -> Vec<String> {
-    let mut out = Vec::new();
+/// Witnesses of earlier findings and hand-picked boundary configurations; always run first.
+const CORPUS: &[&str] = &[
+    // fixed: with_enabled_roots() forgot everything configured before it (0.13.0): the configured
+    // name `bad.test` was dropped and the URI host verified instead => connected
+    "tls https good dom:bad roots ca:ca1 ; s1good h2 - tcp",
+    "tls https good ca:ca1 dom:bad roots ; s1good h2 - tcp",
+    "tls https bad dom:good roots ca:ca1 ; s1good h2 - tcp",
+    "tls https good ca:ca1 id:c1 roots ; s1good h2 ca:ca1 tcp",
+    "tls https good ca:ca1 h2:1 roots ; s1good none - tcp",
+    "tls https good roots ; s1good h2 - tcp",
+    // no TLS configuration at all / generated-code entry point
+    "tls https good notls ; s1good h2 - tcp",
+    "tls https good notls ; s1good plain - tcp",
+    "tls https good notls ; s1good plain - duplex-lazy",
+    "tls https good auto ; s1good h2 - tcp",
+    "tls https good auto ; s1good plain - tcp",
+    "tls http good auto ; s1good plain - tcp",
+    "tls HTTPS good notls ; s1good plain - tcp",
+    "tls HTTPS good ca:ca1 ; s1good h2 - tcp",
+    // https client against a plaintext server and the reverse
+    "tls https good ca:ca1 h2:1 ; s1good plain - tcp",
+    "tls https good ca:ca1 h2:1 ; s1good plain - duplex",
+    "tls http good ca:ca1 ; s1good h2 - tcp",
+    "tls http good notls ; s1good plain - tcp",
+    // ALPN variants
+    "tls https good ca:ca1 ; s1good h2first - tcp",
+    "tls https good ca:ca1 ; s1good h2last - tcp",
+    "tls https good ca:ca1 ; s1good h2only - tcp",
+    "tls https good ca:ca1 h2:1 ; s1good http11 - tcp",
+    "tls https good ca:ca1 h2:1 h2:0 ; s1good none - tcp",
+    "tls https good ca:ca1 h2:0 h2:1 ; s1good none - tcp",
+    // name from the URI / configured name wins / IP names
+    "tls https bad ca:ca1 dom:good ; s1good h2 - tcp",
+    "tls https good ca:ca1 dom:bad dom:good ; s1good h2 - tcp",
+    "tls https good ca:ca1 dom:good dom:bad ; s1good h2 - tcp",
+    "tls https other ca:ca1 ; s1bad h2 - tcp",
+    "tls https ip ca:ca1 ; s1ip h2 - tcp",
+    "tls https ip ca:ca1 ; s1good h2 - tcp",
+    "tls https good ca:ca1 dom:ip ; s1ip h2 - tcp",
+    // roots: accumulate, junk adds nothing, trust anchors, intermediate as anchor is not a root of s1good
+    "tls https good ca:ca2 ca:ca1 ; s1good h2 - tcp",
+    "tls https good cas:ca2+junk ; s1good h2 - tcp",
+    "tls https good cas:ca2+ca1 ; s2good h2 - tcp",
+    "tls https good ta:ca1 ; s1good h2 - tcp",
+    "tls https good tas:ca2+ca1 ta:ca2 ; s1good h2 - tcp",
+    "tls https good ca:ica1 ; s1good h2 - tcp",
+    "tls https good ; s1good h2 - tcp",
+    // configuration errors, in the order the code meets them
+    "tls https good ca:ca1 dom:invalid ; s1good h2 - tcp",
+    "tls https good ca:broken dom:invalid ; s1good h2 - tcp",
+    "tls https good ca:ca1 ca:broken ; s1good h2 - tcp",
+    "tls https good ca:ca1 id:brokencert dom:invalid ; s1good h2 - tcp",
+    "tls https good ca:ca1 id:nokey dom:invalid ; s1good h2 - tcp",
+    "tls https good ca:ca1 id:nokey id:c1 ; s1good h2 ca:ca1 tcp",
+    // mTLS: chains, last client_ca_root wins, optional without a CA, optional then required
+    "tls https good ca:ca1 id:c1chain ; s1good h2 ca:ca1 tcp",
+    "tls https good ca:ca1 id:c1chain ; s1good h2 ca:ca1 duplex",
+    "tls https good ca:ca1 id:c1chain ; s1good none ca:ca1 tcp",
+    "tls https good ca:ca1 id:c1chain h2:1 ; s1good none ca:ca1 duplex",
+    "tls https good ca:ca1 id:c1chain ; s1good h2 ca:ica1 tcp",
+    "tls https good ca:ca1 id:c1 ; s1good h2 ca:ica1 tcp",
+    "tls https good ca:ca1 id:c1 ; s1good h2 ca:ca1+ca:ca2 tcp",
+    "tls https good ca:ca1 id:c2 ; s1good h2 ca:ca1+ca:ca2 tcp",
+    "tls https good ca:ca1 ; s1good h2 opt:1 tcp",
+    "tls https good ca:ca1 id:c2 ; s1good h2 opt:1 tcp",
+    "tls https good ca:ca1 ; s1good h2 ca:ca1+opt:1+opt:0 tcp",
+    "tls https good ca:ca1 ; s1good h2 opt:0+ca:ca1+opt:1+ico:1 tcp",
+    "tls https good ca:ca1 id:c2 ; s1good h2 ca:ca1+opt:1 tcp",
+    "tls https good ca:ca1 id:c1 id:c2 ; s1good h2 ca:ca1 tcp",
+    "tls https good ca:ca1 id:c2 id:c1 ; s1good h2 ca:ca1 tcp",
+    // server configuration alone
+    "srvcfg -",
+    "srvcfg ca:ca1",
+    "srvcfg id:s1good",
+    "srvcfg id:s1good+ca:junk",
+    "srvcfg id:s1good+ca:broken",
+    "srvcfg id:brokencert+ca:broken",
+    "srvcfg id:nokey+ca:junk",
+    "srvcfg id:nokey",
+    "srvcfg id:nokey+id:s1good+ca:junk+ca:ca2+opt:1",
+];
+
+fn join_ops(ops: &[String]) -> String {
+    ops.iter().filter(|s| !s.is_empty()).cloned().collect::<Vec<_>>().join(" ")
+}
+
+/// The property's own matrix: roots {right CA, other CA, none} x domain {matching, non-matching,
+/// from URI} x server ALPN {h2, none, http/1.1} x assume_http2 x client-auth {none, required,
+/// optional} x client identity {none, valid, other CA} = 486 configurations.
+fn matrix(transport: &str, out: &mut Vec<String>) {
     for roots in ["ca:ca1", "ca:ca2", ""] {
         for dom in ["dom:good", "dom:bad", ""] {
             for alpn in ["h2", "none", "http11"] {
                 for assume in ["h2:0", "h2:1"] {
                     for cauth in ["-", "ca:ca1", "ca:ca1+opt:1"] {
                         for id in ["", "id:c1", "id:c2"] {
-                            let ops: Vec<&str> = [roots, dom, id, assume].into_iter().filter(|s| !s.is_empty()).collect();
-                            out.push(format!("tls https good {} ; s1good {} {} tcp", ops.join(" "), alpn, cauth));
+                            let ops: Vec<String> = [roots, dom, id, assume].iter().map(|s| s.to_string()).collect();
+                            out.push(format!("tls https good {} ; s1good {} {} {}", join_ops(&ops), alpn, cauth, transport));
                         }
                     }
                 }
             }
         }
+    }
+}
+
+const TRANSPORTS: [&str; 4] = ["tcp", "duplex", "tcp-lazy", "duplex-lazy"];
+const SERVER_CERTS: [&str; 4] = ["s1good", "s1bad", "s2good", "s1ip"];
+const ALPNS: [&str; 7] = ["h2", "h2", "none", "http11", "h2first", "h2last", "h2only"];
+const SRV_OPS: [&str; 14] = [
+    "-", "-", "ca:ca1", "ca:ca1+opt:1", "ca:ca2", "ca:ca2+opt:1", "opt:1", "ca:ica1", "opt:1+ca:ca1",
+    "ca:ca1+opt:1+opt:0", "ca:ca2+ca:ca1", "ca:ca1+ca:ca2+opt:1", "ico:1+ca:ca1", "ca:ica1+opt:1",
+];
+
+fn issuer_of(servercert: &str) -> &'static str {
+    if servercert == "s2good" { "ca2" } else { "ca1" }
+}
+fn a_name_of(servercert: &str, rng: &mut Rng) -> &'static str {
+    match servercert {
+        "s1bad" => "other",
+        "s1ip" => if rng.chance(1, 2) { "ip" } else { "good" },
+        _ => "good",
+    }
+}
+
+fn random_client_op(rng: &mut Rng, rare: bool) -> String {
+    match rng.below(if rare { 14 } else { 11 }) {
+        0 | 1 => format!("ca:{}", rng.pick(&["ca1", "ca2", "ica1", "junk"])),
+        2 => format!("cas:{}+{}", rng.pick(&["ca1", "ca2", "junk"]), rng.pick(&["ca1", "ca2", "ica1"])),
+        3 => format!("ta:{}", rng.pick(&["ca1", "ca2"])),
+        4 => format!("tas:{}+{}", rng.pick(&["ca1", "ca2"]), rng.pick(&["ca1", "ca2", "ica1"])),
+        5 | 6 => format!("dom:{}", rng.pick(&["good", "bad", "other", "ip"])),
+        7 | 8 => format!("id:{}", rng.pick(&["c1", "c2", "c1chain"])),
+        9 => format!("h2:{}", rng.below(2)),
+        10 => "roots".to_string(),
+        11 => format!("ca:{}", "broken"),
+        12 => format!("id:{}", rng.pick(&["brokencert", "nokey"])),
+        _ => "dom:invalid".to_string(),
+    }
+}
+
+/// A random sequence of builder calls. With `aim_ok` the sequence is steered towards a
+/// configuration that should connect to `servercert` (right CA somewhere, a matching name last
+/// or none with a matching URI host), with overriding / neutral calls sprinkled around it —
+/// that is where a "last call wins / roots accumulate" bug would hide.
+fn random_ops(rng: &mut Rng, servercert: &str, aim_ok: bool, urihost: &mut &'static str) -> Vec<String> {
+    let n = rng.below(7) as usize;
+    let rare = rng.chance(1, 12);
+    let mut ops: Vec<String> = (0..n).map(|_| random_client_op(rng, rare)).collect();
+    if aim_ok {
+        let ca = issuer_of(servercert);
+        let form = match rng.below(4) {
+            0 => format!("ca:{}", ca),
+            1 => format!("cas:junk+{}", ca),
+            2 => format!("ta:{}", ca),
+            _ => format!("cas:{}+{}", ca, rng.pick(&["ca1", "ca2"])),
+        };
+        let pos = rng.below(ops.len() as u64 + 1) as usize;
+        ops.insert(pos, form);
+        let name = a_name_of(servercert, rng);
+        if rng.chance(1, 2) {
+            ops.push(format!("dom:{}", name));
+            // trailing neutral calls after the decisive one
+            if rng.chance(1, 3) {
+                ops.push(format!("h2:{}", rng.below(2)));
+            }
+            if rng.chance(1, 4) {
+                ops.push("roots".into());
+            }
+        } else {
+            ops.retain(|o| !o.starts_with("dom:"));
+            *urihost = name;
+        }
+    }
+    ops
+}
+
+pub fn generate(tier: &str, rng: &mut Rng) -> Vec<String> {
+    let thorough = tier == "thorough";
+    let mut out: Vec<String> = CORPUS.iter().map(|s| s.to_string()).collect();
+
+    // the property's matrix, exhaustively, over real TCP and over the in-memory pipe; thorough
+    // also through lazily connected channels
+    matrix("tcp", &mut out);
+    matrix("duplex", &mut out);
+    if thorough {
+        matrix("tcp-lazy", &mut out);
+        matrix("duplex-lazy", &mut out);
+    }
+
+    // the matrix again with every dimension realised a second, independent way: the server
+    // presents the other certificate instead of the client trusting the other CA; the name
+    // mismatch comes from the certificate / the URI host instead of the configured name
+    for servercert in SERVER_CERTS {
+        for (urihost, dom) in [("good", ""), ("bad", ""), ("other", ""), ("ip", ""), ("bad", "dom:good"), ("good", "dom:other"), ("good", "dom:ip")] {
+            for roots in ["ca:ca1", "ca:ca2", "cas:ca1+ca2", "ta:ca1", "ca:junk"] {
+                for (alpn, assume) in [("h2", "h2:0"), ("none", "h2:1"), ("none", ""), ("h2last", "")] {
+                    let ops: Vec<String> = [roots, dom, assume].iter().map(|s| s.to_string()).collect();
+                    out.push(format!("tls https {} {} ; {} {} - tcp", urihost, join_ops(&ops), servercert, alpn));
+                }
+            }
+        }
+    }
+    // server client-auth op sequences x client identities (incl. the 2-certificate chain)
+    for sops in SRV_OPS {
+        for id in ["", "id:c1", "id:c2", "id:c1chain", "id:c2 id:c1", "id:c1 roots"] {
+            for (alpn, assume, tr) in [("h2", "", "tcp"), ("h2", "", "duplex"), ("none", "h2:1", "tcp"), ("h2first", "", "duplex")] {
+                let ops: Vec<String> = ["ca:ca1", id, assume].iter().map(|s| s.to_string()).collect();
+                out.push(format!("tls https good {} ; s1good {} {} {}", join_ops(&ops), alpn, sops, tr));
+            }
+        }
+    }
+    // scheme x TLS configuration x server kind: the no-fallback clause
+    for scheme in ["https", "http", "HTTPS"] {
+        for client in ["notls", "auto", "", "ca:ca1", "ca:ca1 h2:1", "ca:ca2 h2:1"] {
+            for alpn in ["plain", "h2", "none"] {
+                for tr in TRANSPORTS {
+                    out.push(format!("tls {} good {} ; s1good {} - {}", scheme, client, alpn, tr).replace("  ", " "));
+                }
+            }
+        }
+    }
+
+    // random builder-call sequences on both sides
+    let nrand = if thorough { 60000 } else { 4000 };
+    for _ in 0..nrand {
+        let servercert = *rng.pick(&SERVER_CERTS);
+        let aim_ok = rng.chance(3, 5);
+        let mut urihost: &'static str = *rng.pick(&["good", "good", "bad", "other", "ip"]);
+        let ops = random_ops(rng, servercert, aim_ok, &mut urihost);
+        let alpn = if rng.chance(1, 25) { "plain" } else { *rng.pick(&ALPNS) };
+        let mut ops = ops;
+        if aim_ok && matches!(alpn, "none") && rng.chance(2, 3) {
+            ops.push("h2:1".into());
+        }
+        let sops = if aim_ok && rng.chance(1, 2) {
+            // steer towards an admitted client as well
+            let ca = *rng.pick(&["ca1", "ca2"]);
+            let id = if ca == "ca1" { *rng.pick(&["c1", "c1chain"]) } else { "c2" };
+            let pos = rng.below(ops.len() as u64 + 1) as usize;
+            ops.insert(pos, format!("id:{}", id));
+            let mut so = Vec::new();
+            if rng.chance(1, 3) {
+                so.push(format!("ca:{}", rng.pick(&["ca1", "ca2", "ica1"])));
+            }
+            if rng.chance(1, 3) {
+                so.push(format!("opt:{}", rng.below(2)));
+            }
+            so.push(format!("ca:{}", ca));
+            if rng.chance(1, 3) {
+                so.push(format!("opt:{}", rng.below(2)));
+            }
+            so.join("+")
+        } else {
+            rng.pick(&SRV_OPS).to_string()
+        };
+        let scheme = if rng.chance(1, 30) { "http" } else if rng.chance(1, 30) { "HTTPS" } else { "https" };
+        let tr = *rng.pick(&TRANSPORTS);
+        out.push(format!("tls {} {} {} ; {} {} {} {}", scheme, urihost, join_ops(&ops), servercert, alpn, sops, tr).replace("  ", " "));
+    }
+
+    // server configuration alone: random op sequences incl. malformed PEMs and a missing identity
+    let nsrv = if thorough { 3000 } else { 300 };
+    for _ in 0..nsrv {
+        let n = rng.below(5) as usize;
+        let mut ops: Vec<String> = Vec::new();
+        for _ in 0..n {
+            ops.push(match rng.below(8) {
+                0 | 1 => format!("id:{}", rng.pick(&["s1good", "s2good", "c1chain", "brokencert", "nokey"])),
+                2 | 3 => format!("ca:{}", rng.pick(&["ca1", "ca2", "ica1", "junk", "broken"])),
+                4 | 5 => format!("opt:{}", rng.below(2)),
+                _ => format!("ico:{}", rng.below(2)),
+            });
+        }
+        out.push(format!("srvcfg {}", if ops.is_empty() { "-".to_string() } else { ops.join("+") }));
     }
     out
 }
